@@ -136,6 +136,7 @@ type Exec struct {
 	trace       bool
 	maxTerms    int
 	pruneMs     int
+	decideBranches bool
 	blockLog    []blockRec
 	profile     map[string]*[3]int64 // fn -> self terms, calls, self ns
 	profStack   []profRec
@@ -1037,6 +1038,9 @@ func (ex *Exec) step(fr *Frame, ins ssa.Instruction) {
 		ex.pushEdge(fr, x.Block(), x.Block().Succs[0], fr.g, true)
 	case *ssa.If:
 		c := ex.eval(fr, x.Cond).(*T)
+		if ex.decideBranches {
+			c = ex.decide(fr.g, c)
+		}
 		ex.pushEdge(fr, x.Block(), x.Block().Succs[0], And(fr.g, c), false)
 		ex.pushEdge(fr, x.Block(), x.Block().Succs[1], And(fr.g, Not(c)), true)
 	case *ssa.Return:
